@@ -646,7 +646,15 @@ class Models(object):
                 return False
             if len(l) != len(r):
                 return False
-            for a, b in zip(l, r):
+            # scalar element pairs are compared in ONE decision (equality has no side effects; the element-wise short circuit
+            # of CPython is unobservable) -- identity tuples of 7 attributes would otherwise fork 7 ways per comparison
+            pairs = list(zip(l, r))
+            lifted = [(a, b) for a, b in pairs if sym.liftable(a) and sym.liftable(b) and (isinstance(a, SV) or isinstance(b, SV))]
+            if len(lifted) > 1:
+                if not E.decide(sym.And(*[sym.eq(a, b) for a, b in lifted])):
+                    return False
+                pairs = [(a, b) for a, b in pairs if not (sym.liftable(a) and sym.liftable(b) and (isinstance(a, SV) or isinstance(b, SV)))]
+            for a, b in pairs:
                 if not self.eq(a, b):
                     return False
             return True
